@@ -428,31 +428,47 @@ func Bless(verif, repo string) error {
 // Drift lists the modelled functions of property id whose token stream differs from the
 // blessed one or which are new (nil when nothing changed or there is no lock file).
 func Drift(verif, repo, id string) []string {
+	c, _ := drift2(verif, repo, id)
+	return c
+}
+
+// DriftTied lists the changed functions that are exempt from the drift ALARM because a tie
+// theorem is re-checked on their regenerated translation. They still make the run look
+// harder (enlarged search): the translation idealises `int` as unbounded, so a rewrite that
+// introduces a 64-bit wrap-around passes the tie and must be found by the search.
+func DriftTied(verif, repo, id string) []string {
+	_, t := drift2(verif, repo, id)
+	return t
+}
+
+func drift2(verif, repo, id string) (changedOut, tiedOut []string) {
 	b, err := os.ReadFile(lockPath(verif))
 	if err != nil {
-		return nil
+		return nil, nil
 	}
 	var lock struct {
 		Funcs map[string]string `json:"funcs"`
 	}
 	if json.Unmarshal(b, &lock) != nil || lock.Funcs == nil {
-		return nil
+		return nil, nil
 	}
 	have := modelledFuncs(verif, repo, id)
 	// wave 8: a function whose go2lean translation is tied by a theorem of Props/<id>.lean is
 	// not hashed for this property (see trans.go)
 	exempt := transExempt(verif, repo, id)
-	var changed []string
+	var changed, tied []string
 	for k, h := range have {
+		dst := &changed
 		if exempt[k] {
-			continue
+			dst = &tied
 		}
 		if w, ok := lock.Funcs[k]; !ok {
-			changed = append(changed, k+" (new)")
+			*dst = append(*dst, k+" (new)")
 		} else if w != h {
-			changed = append(changed, k)
+			*dst = append(*dst, k)
 		}
 	}
 	sort.Strings(changed)
-	return changed
+	sort.Strings(tied)
+	return changed, tied
 }
